@@ -99,10 +99,13 @@ CLAIMED = {
               "the limits and every batch size, docfreq is the number of documents containing the term (0 if unknown), "
               "doclengths is the list of token counts (0 for empty documents, wherever they fall relative to batch "
               "boundaries), corpus_size the number of rows and the total behind the average the sum of lengths. "
-              "avg_doc_length as a float32 is checked against the correctly rounded total/n by the correspondence "
-              "check (not proved)."),
+              "The average as a binary32 (C02_average_is_rounded_mean, Score/AvgLen.v): with fewer than 2^24 tokens and rows, "
+              "every bracketing of the float32 additions of the lengths is exact and the average is the correctly rounded "
+              "mean (relative error <= 2^-24; 0 iff the corpus is all empty); beyond 2^24 tokens numpy's float32 "
+              "accumulator rounds (a 2-ulp witness is recorded), which the check tolerates within 1e-6."),
         design_ref="DESIGN.md 7 (C02)",
-        note=COMMON_NOTE + "np.mean over float32 = correctly rounded exact mean while totals < 2^24 (validated, not proved). No axioms.",
+        note=COMMON_NOTE + "That np.mean is a tree of float32 additions over the elements plus zero seeds is read off numpy's "
+             "source, not proved. Axioms: the Reals axioms via Flocq for the average theorem only; the counting theorems are closed.",
         technique="Coq proof (diff-trick invariant, unique-keys lemma, batching lemma) + three-way correspondence",
     ),
     "C03": dict(
